@@ -128,7 +128,7 @@ def judge(case):
             table[key] = got
         elif table[key] != got:
             viol.append("same source and inputs, different result: first %r, now %r (%s) | inputs=%r | %s"
-                        % (table[key], got, ctx, env, texts[si]))
+                        % (table[key], got, ctx, common.short_env(env), texts[si]))
 
     state0 = common.global_state()
     try:
@@ -324,7 +324,7 @@ def judge_batch(case):
             for it, a, b in zip(items, parent, tr["results"]):
                 if a != b:
                     viol.append("process-dependent result: this process %r, child (PYTHONHASHSEED=%s, locale=%s, cwd=%s) %r | inputs=%r | %s"
-                                % (a, tr["hashseed"], tr["locale"], tr["cwd"], b, M.dec_inputs(it["inputs"]), it["text"]))
+                                % (a, tr["hashseed"], tr["locale"], tr["cwd"], b, common.short_env(M.dec_inputs(it["inputs"])), it["text"]))
                     if len(viol) >= 4:
                         break
     finally:
